@@ -24,7 +24,9 @@ COMMON = ['-std=gnu++11', '-DUNIX_HOST_DUINO', '-Wno-deprecated-declarations']
 VARIANTS = {
     'plain': ['-O2'],
     'san': ['-O1', '-g', '-fno-omit-frame-pointer', '-fsanitize=address,undefined',
-            '-fno-sanitize-recover=all'],
+            # UB reports are recoverable: simdev's __ubsan_on_report() hook turns each into a verdict
+            # (replay) or a UBHIT line (batch) and execution continues; ASan errors stay fatal.
+            '-fsanitize-recover=undefined'],
 }
 
 
